@@ -71,6 +71,52 @@ type zzFixtureT struct{ xs []int }
 
 func zzFixtureNew() *zzFixtureT { return &zzFixtureT{xs: zzFixtureShared} }
 `, "zzFixtureNew"},
+	{"R148", "pkg/logic/zz_fixture_r148.go", `package logic
+
+type zzFixtureL struct{ xs []int }
+
+func (l *zzFixtureL) zzFixtureFilter() []int {
+	out := l.xs[:0]
+	for _, x := range l.xs {
+		if x > 0 {
+			out = append(out, x)
+		}
+	}
+	return out
+}
+`, "zzFixtureFilter"},
+	{"R155", "pkg/logic/zz_fixture_r155.go", `package logic
+
+func zzFixtureShrink(xs []int) []int {
+	out := make([]int, 0, len(xs))
+	copy(out, xs)
+	return out
+}
+`, "zzFixtureShrink"},
+	{"R152", "pkg/logic/zz_fixture_r152.go", `package logic
+
+import "github.com/olive-io/bpmn/v2/pkg/event"
+
+func zzFixtureSame(a, b event.IEvent) bool { return a == b }
+`, "zzFixtureSame"},
+	{"R158", "pkg/id/zz_fixture_r158.go", `package id
+
+type zzFixturePool struct{ slab []int }
+
+func (p *zzFixturePool) zzFixtureDraw(v int) *int {
+	if len(p.slab) == cap(p.slab) {
+		p.slab = p.slab[:0]
+	}
+	p.slab = append(p.slab, v)
+	return &p.slab[len(p.slab)-1]
+}
+`, "zzFixtureDraw"},
+	{"R161", "pkg/logic/zz_fixture_r161.go", `package logic
+
+type zzFixtureCfg struct{ Gap float64 }
+
+func zzFixtureRows(cfg *zzFixtureCfg, h float64) float64 { return h / cfg.Gap }
+`, "zzFixtureRows"},
 }
 
 // checkFixtures runs the zero-expected rules among ids on the fixture program and returns one obligation per rule.
